@@ -397,6 +397,21 @@ def main():
         if a.prop == "C19":
             import tv_check
             rc = tv_check.run_c19(a.tier, seed, write_evidence, only)
+        elif a.prop == "C18":
+            import tv_check
+            # (a) wide_* helpers by Kani, (b) the Cranelift IR the JIT emits vs RTL terms by SMT miters
+            konly = [o for o in only if o.startswith("c18_")]
+            tonly = [o for o in only if not o.startswith("c18_")]
+            rc_a = kani_property("C18", a.tier, konly, a.jobs, seed) if (konly or not only) else 0
+            rc_b, cov = tv_check.run_c18_tv(a.tier, seed, tonly or None) if (tonly or not only) else (0, {})
+            evp = os.path.join(ROOT, "evidence", "C18.json")
+            if os.path.exists(evp) and cov:
+                ev = json.load(open(evp))
+                ev["coverage"].update(cov)
+                if rc_b == 1:
+                    ev["violations"] = ev.get("violations", 0) + 1
+                json.dump(ev, open(evp, "w"), indent=1)
+            rc = 1 if 1 in (rc_a, rc_b) else (2 if 2 in (rc_a, rc_b) else 0)
         elif a.prop == "C21":
             import tv_check
             # (a) pattern algebra by Kani, (b) the real rewrite/techmap passes by SAT miters per corpus design
